@@ -1359,3 +1359,4 @@ def _glyf_build(d):
 
 CONTRACTS["ufo2ft.outlineCompiler:OutlineTTFCompiler.setupTable_glyf"].runtime = Runtime(_glyf_cases, _glyf_build, call=lambda fn, a: fn(a["self"]))
 CLASSES["C02_TTCompiler"].views["_compiledGlyphs"] = lambda o: o._compiledGlyphs
+
